@@ -44,6 +44,7 @@ EXPLANATION = (
 ASSUMPTIONS = [phys.POSITIVITY_TEXT, "transient=False", "the law is the transcription in ppsa/spec/laws.py "
                "(pipe_component.rst, junction_component.rst, Baehr 2010)"]
 TECHNIQUE = "whole-function value numbering of the thermal derivative calculation vs transcribed law; quantity-kind inference on normal forms; symbolic differentiation; constant folding"
+EXPLANATION += (' ' + "(R10.7) every store into the heat-exchanging diameter DO is independent of the inner diameter or restricted to the rows whose DO is NaN. (R10.9) in mode 'heat' use_given_hydraulic_results stores sol_vec[:n_nodes] into PINIT and sol_vec[n_nodes:] into MDOTINIT of all rows; up to a dtype conversion nothing is done to the values (a masked overwrite, abs() or a sign filter makes the cooling law be evaluated for a flow that is not the given one).")
 
 MDOT = bcol("MDOTINIT")
 
